@@ -6,4 +6,4 @@ require github.com/robbyt/go-supervisor v0.0.0
 
 require github.com/robbyt/go-fsm/v2 v2.3.0
 
-replace github.com/robbyt/go-supervisor => /tmp/suprepo
+replace github.com/robbyt/go-supervisor => /repo
